@@ -695,6 +695,9 @@ class MemoSpec(BfsSpec):
         S.outcome("|".join(diff))
         if diff:
             S.count("memo_warm_state_checks")
+            hist = (S.current_case or {}).get("history") if isinstance(S.current_case, dict) else None
+            if hist and len(hist) >= 2:
+                S.sample({"history": [short(a["q"]) + (" +scribble" if a["v"] == "scribble" else "") for a in hist], "warm": diff[:6]})
         if battery_known_ok("memo", key):
             S.count("memo_battery_skipped_same_state")
             return
@@ -800,6 +803,9 @@ class FftSpec(BfsSpec):
         key = st.canon()
         la = _lib("mingus.extra.fft")._last_asked
         S.outcome("cursor=%s" % (la[0] if isinstance(la, tuple) else la,))
+        hist = (S.current_case or {}).get("history") if isinstance(S.current_case, dict) else None
+        if hist and len(hist) >= 2:
+            S.sample({"lookups": [float.fromhex(a[1]) for a in hist], "cursor": render(la)})
         if battery_known_ok("fft", key):
             return
         bad = compare_battery(FFT_SPACE, fft_battery(), "fft battery")
@@ -915,6 +921,8 @@ def run_arguments(case):
     except Exception as e:                                              # noqa -- which calls raise is not C15's subject
         raised = e
     S.trans(1)
+    if watched:
+        S.sample({"case": case, "list_or_dict_arguments": {p: before[p][1] for p in watched}})
     S.count("arguments_calls_raised" if raised is not None else "arguments_calls_returned")
     S.outcome((case[0], case[1], type(raised).__name__ if raised is not None else "ok"))
     for p, v in watched.items():
@@ -1030,6 +1038,8 @@ def run_instances(case):
     eff = apply_ops(case[0], a, case[1])
     changed = observe(a) != before_a
     S.count("scripts_that_changed_the_operated_instance" if changed else "scripts_without_effect")
+    if changed and len(case[1]) == 2:
+        S.sample(case)
     S.outcome((case[0], tuple(op[0] for op in case[1]), tuple(eff), changed))
     script = " ; ".join("a.%s(%s)" % (op[0], ", ".join("%s#%d" % (p, j) for p, j in op[1] if j)) for op in case[1])
     after_b = observe(b)
@@ -1047,13 +1057,20 @@ def run_instances(case):
                   detail="an instance created afterwards is not pristine", tags={"kind": "third", "class": case[0]})
 
 
-def gen_instances(shard):
-    owner_name, maxlen = shard
-    ops = class_ops(owner_name)
-    yield [owner_name, []]
+def _scripts(ops, maxlen, first):
+    """all scripts of length 1..maxlen whose first operation is ops[first] (a shard of the script space)"""
     for n in range(1, maxlen + 1):
-        for script in itertools.product(ops, repeat=n):
-            yield [owner_name, [list(o) for o in script]]
+        for rest in itertools.product(ops, repeat=n - 1):
+            yield [list(ops[first])] + [list(o) for o in rest]
+
+
+def gen_instances(shard):
+    owner_name, maxlen, first = shard
+    if first is None:
+        yield [owner_name, []]
+        return
+    for script in _scripts(class_ops(owner_name), maxlen, first):
+        yield [owner_name, script]
 
 
 COPY_SOURCES = {
@@ -1079,6 +1096,8 @@ def run_copies(case):
     eff = apply_ops(case[0], target, case[2])
     changed = observe(target) != before_target
     S.count("copy_scripts_with_effect" if changed else "copy_scripts_without_effect")
+    if changed and len(case[2]) == 2:
+        S.sample(case)
     S.outcome((case[0], case[1], tuple(op[0] for op in case[2]), tuple(eff), changed))
     after = observe(other)
     if after != before_other:
@@ -1089,11 +1108,9 @@ def run_copies(case):
 
 
 def gen_copies(shard):
-    owner_name, side, maxlen = shard
-    ops = class_ops(owner_name)
-    for n in range(1, maxlen + 1):
-        for script in itertools.product(ops, repeat=n):
-            yield [owner_name, side, [list(o) for o in script]]
+    owner_name, side, maxlen, first = shard
+    for script in _scripts(class_ops(owner_name), maxlen, first):
+        yield [owner_name, side, script]
 
 
 CLAUSES = {
@@ -1160,11 +1177,13 @@ def explore(ctx):
     classes = sorted(set(on for (on, _), e in catalogue().items() if e["owner"].kind == "class"))
     if ctx.want("instances"):
         # scripts of length <= 2 for every class; thorough adds length 3 where the alphabet is small enough
-        shards = []
+        shards, lengths = [], {}
         for c in classes:
             n_ops = len(class_ops(c))
-            shards.append((c, 3 if (ctx.tier == "thorough" and n_ops <= 32) else 2))
-        ctx.bound("instance_script_length", {c: n for c, n in shards})
+            lengths[c] = 3 if (ctx.tier == "thorough" and n_ops <= 32) else 2
+            shards.append((c, 0, None))                                   # the empty script
+            shards += [(c, lengths[c], i) for i in range(n_ops)]          # sharded by the first operation
+        ctx.bound("instance_script_length", lengths)
         ctx.bound("classes", classes)
         ctx.product("instances", shards, gen_instances)
         if not ctx.only:
@@ -1173,7 +1192,8 @@ def explore(ctx):
 
     if ctx.want("copies"):
         maxlen = ctx.pick(2, 2)
-        ctx.product("copies", [(c, side, maxlen) for c in sorted(COPY_SOURCES) for side in ("copy", "original")], gen_copies)
+        ctx.product("copies", [(c, side, maxlen, i) for c in sorted(COPY_SOURCES) for side in ("copy", "original")
+                               for i in range(len(class_ops(c)))], gen_copies)
         if not ctx.only:
             ctx.guard("copies: scripts with an effect on the operated object", ctx.counter("copy_scripts_with_effect"), 200)
 
